@@ -10,9 +10,10 @@
 #   c16.total     <hex line>,<hex line>,...
 # A comment line is the CommentLine.Str the Lua lexer hands to ParseCommentFragment: the text after the leading
 # "--" (so an annotation line starts with "-@", an alias continuation line with "-|").
-# Spec trees are generated here (derivations of the documented grammar, depth <= 4) and printed by the canonical
-# printer extracted from Coq (model binary, legs c16.show / c16.showtype); the OCaml driver re-checks that the line
-# is show(spec) and that doc_stat(spec) holds, so impl == model == spec is a real round trip.
+# Spec trees are generated here (derivations of the documented grammar, depth <= 4, plus towers of array suffixes up
+# to 12 deep) and printed by the canonical printer `(T[])[]` (c) or the plain printer `T[][]` (p) extracted from Coq
+# (model binary, legs c16.show / c16.showtype); the OCaml driver re-checks that the line is show(spec) and that
+# doc_stat(spec) holds, so impl == model == spec is a real round trip (spec = embed_line / embed_line_plain).
 import os, re
 import vlib
 from vlib import Leg, hexs
@@ -88,6 +89,11 @@ def g_type(rng, d):
         return "F," + g_fun_body(rng, d)
     k = rng.choice([2, 2, 3, 4])
     return "U,%d,%s" % (k, ",".join(g_type(rng, d - 1) for _ in range(k)))
+
+
+def g_tower(rng, d):
+    """T[][]...[]: 2..12 array suffixes around any type (the documented TYPE[] applied repeatedly)"""
+    return "A," * rng.choice([2, 2, 3, 3, 4, 6, 9, 12]) + g_type(rng, d)
 
 
 def g_comment(rng, allow=True):
@@ -221,15 +227,26 @@ SIZES = {"quick": 6, "thorough": 60, "search": 2}
 # ----------------------------------------------------------------------------- leg c16.line
 def gen_line(rng, tier):
     k = SIZES[tier]
-    n_doc, n_cor, n_gar, n_plain = 2200 * k, 1500 * k, 700 * k, 250 * k
+    n_doc, n_cor, n_gar, n_plain, n_tower = 2200 * k, 1500 * k, 700 * k, 250 * k, 60 * k
     out = []
     # every statement form at every depth 0..4 is present in every run
     specs = [(g_stat(rng, d, f), "c") for d in range(5)
              for f in ("type", "class", "field", "param", "return", "alias", "generic", "overload", "vararg", "enum")]
     specs += [(g_stat(rng), "c") for _ in range(n_doc)]
-    # the naive printer (string[][] instead of (string[])[]): class nested_array when a nested array occurs
+    # the plain printer (string[][] instead of (string[])[]); label nested_array when a nested array occurs
     specs += [(g_stat(rng, rng.choice([2, 3, 4]), rng.choice(["type", "field", "param", "return", "alias", "vararg"])), "p")
               for _ in range(n_plain)]
+    # towers of array suffixes, both printers, in every statement form that carries a type
+    for _ in range(n_tower):
+        t = g_tower(rng, rng.choice([0, 0, 1, 2]))
+        form = rng.choice(["type", "field", "param", "return", "alias", "vararg"])
+        c = g_comment(rng)
+        sp = {"type": "type,1,0,0,%s,%s" % (t, c), "field": "field,_,0,%s,%s,%s" % (hx("f"), t, c),
+              "param": "param,0,%s,0,%s,%s" % (hx("p"), t, c), "return": "return,1,%s,0,%s" % (t, c),
+              "alias": "alias,%s,%s,%s" % (hx("Al"), t, c), "vararg": "vararg,%s,%s" % (t, c)}[form]
+        specs.append((sp, rng.choice(["p", "p", "c"])))
+    # enum lines with a comment (label enum_comment)
+    specs += [("enum,%d,%s" % (rng.random() < 0.5, g_comment(rng)), "c") for _ in range(20 * k)]
     lines = show_many("c16.show", specs)
     for (sp, pr), h in zip(specs, lines):
         out.append("%s %s %s" % (h, sp, pr))
@@ -322,6 +339,8 @@ def gen_print(rng, tier):
     specs = []
     for _ in range(n):
         specs.append((g_type(rng, rng.choice([0, 1, 2, 2, 3, 4])), "p" if rng.random() < 0.15 else "c"))
+    for _ in range(n // 20):
+        specs.append((g_tower(rng, rng.choice([0, 1, 2])), rng.choice(["p", "c"])))
     texts = show_many("c16.showtype", specs)
     out = list(texts)
     for _ in range(n // 6):
